@@ -8,5 +8,6 @@ func genExtra(repo string) map[string]string {
 		"Gen_layouts.v":    genLayouts(),
 		"Gen_randsites.v":  genRandSites(repo),
 		"Gen_check_ir.v":   genCheckIR(repo),
+		"Gen_vars.v":       genVars(repo),
 	}
 }
